@@ -1,5 +1,6 @@
 """C03 — unmarked markup is reproduced verbatim; tokenising and parsing lose nothing."""
 import itertools
+import os
 
 import canon
 import core
@@ -164,6 +165,7 @@ def oracle(ctx):
             ctx.violation('token stream does not concatenate back to the input with contiguous positions',
                           s, expected=s, actual=[[str(t), t.pos] for t in toks])
     ctx.sample({'tokenizer_input': '<a b="1">x</a><!-- c', 'tokens': impl_tokens('<a b="1">x</a><!-- c')})
+    rewritten_objects(ctx)
     docs = gen_docs(ctx, 3000, 100000)
     if ctx.model_ok:
         infos = core.par_batch([{'op': 'dissect', 's': d} for d in docs])
@@ -205,6 +207,46 @@ def oracle(ctx):
     ctx.cov['identity_domain_histogram'] = hist
     ctx.sample({'document': docs[-1], 'rendered': impl_static(docs[-1])})
     ctx.counters['nontrivial'] = len(seen)
+
+
+def rewritten_objects(ctx):
+    """one template object that cooks two texts in a row (`write()` again, or the file rewritten under auto_reload): the second text
+    is reproduced by its own rules - CR/CRLF normalised unless *it* is an XML document - whatever the first one was"""
+    import shutil
+    import tempfile
+    from chameleon import PageTemplate, PageTemplateFile
+    xml = '<?xml version="1.0"?>\r\n<a b="1">x\r\n</a>'
+    html = '<div a=\'1\'>\r\n  <br>\rtext &amp; more</div>\r\n'
+    d = tempfile.mkdtemp(prefix='c03_')
+    n = 0
+    try:
+        for first, second in ((xml, html), (html, xml), (xml, xml), (html, html)):
+            want = second if second.startswith('<?xml') else normalize_newlines(second)
+            t = PageTemplate(first)
+            t()
+            t.write(second)
+            got = t()
+            ctx.count('evaluations')
+            n += 1
+            if got != want:
+                ctx.violation('a statement-free text given to a template object that held another document before is not reproduced by its own '
+                              'rules (CR/CRLF to LF outside XML mode)', {'first': first, 'second': second, 'how': 'write()'}, expected=want, actual=got)
+            p = os.path.join(d, 't%d.pt' % n)
+            with open(p, 'w', newline='') as f:
+                f.write(first)
+            os.utime(p, (1000, 1000))
+            tf = PageTemplateFile(p, auto_reload=True)
+            tf()
+            with open(p, 'w', newline='') as f:
+                f.write(second)
+            os.utime(p, (2000, 2000))
+            got = tf()
+            ctx.count('evaluations')
+            if got != want:
+                ctx.violation('a statement-free file rewritten under auto_reload is not reproduced by its own rules', {'first': first, 'second': second,
+                              'how': 'auto_reload'}, expected=want, actual=got)
+    finally:
+        shutil.rmtree(d, ignore_errors=True)
 
 
 def reproduce_finding(ctx, f):
